@@ -260,7 +260,7 @@ def rand_env(names, rng, lo=-2.0, hi=2.0):
     env = {}
     for n in names:
         # dyadic rationals away from 0 and from each other (generic position)
-        env[n] = rng.choice([-1, 1]) * (rng.randrange(3, 4 * 64) / 64.0)
+        env[n] = rng.choice([-1, 1]) * ((2 * rng.randrange(2, 2 * 64) + 1) / 64.0)  # odd/64: never an integer or a half
     return env
 
 
